@@ -7,13 +7,17 @@ func init() {
 		Harness:    []string{"interp_common.go", "C12.go"},
 		Instrument: runidInstr,
 		Redirects: map[string]string{
+			interpPath + ".genGlobalVars": "vmGenGlobalVarsFail",
 			ip + "parse": "vmParse", ip + "ast": "vmAst", ip + "gtaRetry": "vmGtaRetry", ip + "cfg": "vmCfg", ip + "Execute": "vmExecute",
 		},
 		Obligs: func(tier string) []Oblig {
-			return []Oblig{{Harness: "vh_C12_eval", Unroll: 8}}
+			return []Oblig{
+				{Harness: "vh_C12_eval", Unroll: 8, KeepRedirects: []string{"vmParse", "vmAst", "vmGtaRetry", "vmCfg", "vmExecute"}},
+				{Harness: "vh_C12_execute", Unroll: 8, KeepRedirects: []string{"vmGenGlobalVarsFail"}},
+			}
 		},
 		Bounds:      []string{"every combination of outcomes (error / success) of the stages parse, ast, gtaRetry, cfg; ast may also yield no root"},
-		Assumptions: []string{"the compile stages are replaced by models that fail on command (their own type rules are outside)", "Execute replaced by a counter"},
+		Assumptions: []string{"the compile stages are replaced by models that fail on command (their own type rules are outside)", "Execute replaced by a counter (eval obligation); in the Execute obligation the real Execute runs with genGlobalVars failing on command"},
 		Stubs:       []string{"(*Interpreter).parse", "(*Interpreter).ast", "(*Interpreter).gtaRetry", "(*Interpreter).cfg", "(*Interpreter).Execute"},
 		Outside:     []string{"the ~30 type rules of typecheck.go / type.go", "never rejecting a well-typed program", "code that cfg itself runs while compiling (source imports)", "EvalPath/importSrc"},
 	}
